@@ -4,7 +4,7 @@ import json
 import os
 
 ROOT = "/verif"
-HOOK_COMMITS = ["9464261", "db74668", "82c77a2"]
+HOOK_COMMITS = ["9464261", "db74668", "82c77a2", "4c6d354"]
 
 TB = ("Trusted: Coq 8.16.1 kernel (+vm_compute for evaluating the model on correspondence cases; no native_compute); "
       "the hand-written Gallina model, tied to /repo only by this check's correspondence run against the binary built from /repo's working tree with --cfg vicut_verif; "
@@ -57,6 +57,13 @@ CLAIMED = {
         note=TB + "Write-time faults and a file vanishing between validation and read are not injected; fs::write atomicity not modelled.",
         technique="Coq proof (phase structure of the drivers) + exhaustive fault enumeration against the driver model",
         design="§9 C06"),
+    "C15": dict(
+        text="Theorems (all token lists of any length): a key string made of the 14 special keys - each independently as alias or as raw control byte / escape sequence - and ordinary characters (any scalar value, multi-byte included) is read one key per token, in order, to its end, so the notation is irrelevant; "
+             "'\\<' delivers both characters; '<' that opens no alias is literal; UTF-8 reassembly recovers every scalar value (arithmetic proof). "
+             "Correspondence: the real RawReader (in-process) vs the model on alias/modifier/escape-sequence/multi-byte key strings incl. truncated and unknown ones; CLI: 33 scenario templates over normal/insert/replace/visual/search/ex with every alias/raw rendering compared; insert-mode literal texts vs the expand_literal model.",
+        note=TB + "Raw ESC followed by '[' or 'O' is an escape sequence by definition and excluded; 'alias' is the code's grammar (so <a> is the key A).",
+        technique="Coq proof (byte-level reader model, induction over tokens, lia for UTF-8 arithmetic) + model-vs-binary correspondence",
+        design="§9 C15"),
 }
 
 NOT_YET = {}
